@@ -1,5 +1,5 @@
 use crate::interface::config::GenerateConfig;
-use crate::models::{CommandInfo, StructInfo};
+use crate::models::{CommandInfo, EventInfo, StructInfo, ValidatorAttributes};
 use serde::{Deserialize, Serialize};
 use std::collections::HashMap;
 use std::fs;
@@ -43,7 +43,21 @@ impl GenerationCache {
         structs: &HashMap<String, StructInfo>,
         config: &GenerateConfig,
     ) -> Result<Self, CacheError> {
-        let commands_hash = Self::hash_commands(commands)?;
+        Self::new_with_events(commands, &[], structs, config)
+    }
+
+    /// Create a new cache from current generation state, events.ts included
+    pub fn new_with_events(
+        commands: &[CommandInfo],
+        events: &[EventInfo],
+        structs: &HashMap<String, StructInfo>,
+        config: &GenerateConfig,
+    ) -> Result<Self, CacheError> {
+        let commands_hash = format!(
+            "{}{}",
+            Self::hash_commands(commands)?,
+            Self::hash_events(events)?
+        );
         let structs_hash = Self::hash_structs(structs)?;
         let config_hash = Self::hash_config(config)?;
         let combined_hash = Self::combine_hashes(&commands_hash, &structs_hash, &config_hash)?;
@@ -86,6 +100,17 @@ impl GenerationCache {
         structs: &HashMap<String, StructInfo>,
         config: &GenerateConfig,
     ) -> Result<bool, CacheError> {
+        Self::needs_regeneration_with_events(output_dir, commands, &[], structs, config)
+    }
+
+    /// Check if generation is needed by comparing with previous cache, events.ts included
+    pub fn needs_regeneration_with_events<P: AsRef<Path>>(
+        output_dir: P,
+        commands: &[CommandInfo],
+        events: &[EventInfo],
+        structs: &HashMap<String, StructInfo>,
+        config: &GenerateConfig,
+    ) -> Result<bool, CacheError> {
         // Try to load previous cache
         let previous_cache = match Self::load(&output_dir) {
             Ok(cache) => cache,
@@ -101,7 +126,7 @@ impl GenerationCache {
         }
 
         // Generate current cache
-        let current_cache = Self::new(commands, structs, config)?;
+        let current_cache = Self::new_with_events(commands, events, structs, config)?;
 
         // Compare combined hashes
         Ok(previous_cache.combined_hash != current_cache.combined_hash)
@@ -123,6 +148,7 @@ impl GenerationCache {
             return_type: &'a str,
             is_async: bool,
             channels: Vec<ChannelHashData<'a>>,
+            serde_rename_all: Option<String>,
         }
 
         #[derive(Serialize)]
@@ -130,12 +156,14 @@ impl GenerationCache {
             name: &'a str,
             rust_type: &'a str,
             is_optional: bool,
+            serde_rename: Option<&'a str>,
         }
 
         #[derive(Serialize)]
         struct ChannelHashData<'a> {
             parameter_name: &'a str,
             message_type: &'a str,
+            serde_rename: Option<&'a str>,
         }
 
         let hash_data: Vec<CommandHashData> = commands
@@ -150,6 +178,7 @@ impl GenerationCache {
                         name: &p.name,
                         rust_type: &p.rust_type,
                         is_optional: p.is_optional,
+                        serde_rename: p.serde_rename.as_deref(),
                     })
                     .collect(),
                 return_type: &cmd.return_type,
@@ -160,9 +189,22 @@ impl GenerationCache {
                     .map(|c| ChannelHashData {
                         parameter_name: &c.parameter_name,
                         message_type: &c.message_type,
+                        serde_rename: c.serde_rename.as_deref(),
                     })
                     .collect(),
+                serde_rename_all: cmd.serde_rename_all.map(|rule| format!("{:?}", rule)),
             })
+            .collect();
+
+        let json = serde_json::to_string(&hash_data)?;
+        Ok(Self::compute_hash(&json))
+    }
+
+    /// Generate a deterministic hash of the emitted events
+    fn hash_events(events: &[EventInfo]) -> Result<String, CacheError> {
+        let hash_data: Vec<(&str, &str)> = events
+            .iter()
+            .map(|e| (e.event_name.as_str(), e.payload_type.as_str()))
             .collect();
 
         let json = serde_json::to_string(&hash_data)?;
@@ -177,6 +219,7 @@ impl GenerationCache {
             file_path: &'a str,
             is_enum: bool,
             fields: Vec<FieldHashData<'a>>,
+            serde_rename_all: Option<String>,
         }
 
         #[derive(Serialize)]
@@ -185,6 +228,8 @@ impl GenerationCache {
             rust_type: &'a str,
             is_optional: bool,
             is_public: bool,
+            serde_rename: Option<&'a str>,
+            validator_attributes: Option<&'a ValidatorAttributes>,
         }
 
         // Sort by name for deterministic ordering
@@ -205,8 +250,11 @@ impl GenerationCache {
                         rust_type: &f.rust_type,
                         is_optional: f.is_optional,
                         is_public: f.is_public,
+                        serde_rename: f.serde_rename.as_deref(),
+                        validator_attributes: f.validator_attributes.as_ref(),
                     })
                     .collect(),
+                serde_rename_all: s.serde_rename_all.map(|rule| format!("{:?}", rule)),
             })
             .collect();
 
